@@ -172,10 +172,13 @@ Fixpoint union_loop (orig : option str) (v : val) (rs : list (cty * option val))
 
 Definition exc_val : val := VOpaque [101;120;99]%N [].
 
-(* `if all(isinstance(v, Exception) for v in vals): raise; val = vals[-1]` *)
+(* `if all(isinstance(v, Exception) for v in vals): raise; val = [v for v in vals if not isinstance(v, Exception)][-1]`
+   (fix ec37b24: the last member that accepted, never a member's exception) *)
 Definition union_result (vals : list uval) : option val :=
-  if forallb (fun u => match u with UExc => true | _ => false end) vals then None
-  else match last vals UExc with UOk w => Some w | UExc => Some exc_val end.
+  match filter (fun u => match u with UOk _ => true | UExc => false end) vals with
+  | [] => None
+  | oks => match last oks UExc with UOk w => Some w | UExc => None end
+  end.
 
 Definition adapt_union (orig : option str) (v : val) (rs : list (cty * option val)) : option val :=
   union_result (union_loop orig v (stable_sort (fun r => union_key (is_str v) (fst r)) rs) []).
@@ -217,7 +220,8 @@ Definition key_to_int (k : val) : option val :=
   | _ => None
   end.
 
-Definition lit_in (v : val) (ls : list val) : bool := existsb (py_eq v) ls.
+(* is_literal_member (fix d000fe2): same type and equal value *)
+Definition lit_in (v : val) (ls : list val) : bool := existsb (val_eqb v) ls.
 Definition has_int_lit (ls : list val) : bool := existsb (fun l => match l with VInt _ => true | _ => false end) ls.
 
 (* ---- adapt_typehints -------------------------------------------------------------------------------------------- *)
